@@ -140,6 +140,67 @@ theorem chkLoop_walk {p sh rk KR S} (h : PInv p sh rk KR) (hc : Coherent p rk KR
       rw [chkLoop, hstep]
       simpa using e1
 
+/-- the same walk, tracking WHICH keys the standby ends up with: it keeps every key it had and gains, for every term
+from its own active term up to the stored active term, exactly the stored keyring's key of that term -/
+theorem chkLoop_gain {p sh rk KR S} (h : PInv p sh rk KR) (hc : Coherent p rk KR) (hrk : rk ∈ S) :
+    ∀ (d : Nat) (b : Barrier) (kr : Keyring), b.sealed = false → b.keyring = some kr → SealedIff b → SubK S b KR →
+      KR.active - kr.active = d →
+      (∀ t, kr.active ≤ t → t < KR.active → p.get (.upgrade t) ≠ none) →
+      ∀ n, d ≤ n → ∃ b' kr', chkLoop p (n + 1) b = (b', .okUp false 0) ∧ b'.keyring = some kr' ∧ kr'.active = KR.active ∧
+        (∀ t k, kr.termKey t = some k → kr'.termKey t = some k) ∧
+        (∀ t, kr.active ≤ t → t ≤ KR.active → kr'.termKey t = KR.termKey t) := by
+  intro d
+  induction d with
+  | zero =>
+    intro b kr hs hkr _ hsub hd _ n _
+    obtain ⟨h1, _, ⟨ak, h3⟩, _⟩ := hsub kr hkr
+    have hle : kr.active ≤ KR.active := (h.wf.2 _ _ (h1 _ _ h3)).2.1
+    have heq : kr.active = KR.active := by omega
+    have hg : p.get (.upgrade kr.active) = none := by
+      cases hx : p.get (.upgrade kr.active) with
+      | none => rfl
+      | some e =>
+        obtain ⟨_, k', _, hk'⟩ := h.ups _ _ hx
+        have := (h.wf.2 _ _ hk').2.1; omega
+    refine ⟨b, kr, by simp [chkLoop, chk_absent false (termKeyN 0) b kr hs hkr hg], hkr, heq, fun _ _ x => x, ?_⟩
+    intro t ht1 ht2
+    have : t = kr.active := by omega
+    subst this
+    rw [h3, h1 _ _ h3]
+  | succ d ih =>
+    intro b kr hs hkr hsi hsub hd hup n hn
+    have hlt : kr.active < KR.active := by omega
+    obtain ⟨h1, h2, ⟨ak, h3⟩, _⟩ := hsub kr hkr
+    have hnone : kr.termKey (kr.active + 1) = none := by
+      cases hx : kr.termKey (kr.active + 1) with
+      | none => rfl
+      | some k0 => have := h2 _ _ hx; omega
+    cases hg : p.get (.upgrade kr.active) with
+    | none => exact absurd hg (hup _ (Nat.le_refl _) hlt)
+    | some e0 =>
+      obtain ⟨k', hstep⟩ := chk_present h false (termKeyN 0) b kr hs hkr hsub e0 hg
+      obtain ⟨_, _, g3, g4, _⟩ := step_chkupgrade false (termKeyN 0) b h hc hrk hsi hsub
+      rw [hstep] at g3 g4
+      simp only [applyWrites] at g3 g4
+      obtain ⟨m, rfl⟩ : ∃ m, n = m + 1 := ⟨n - 1, by omega⟩
+      have := ih _ _ (by simpa using hs) rfl g3 g4 (by simp; omega)
+        (by intro t ht1 ht2; exact hup t (by simp at ht1; omega) ht2) m (by omega)
+      obtain ⟨b', kr', e1, e3, e4, e6, e7⟩ := this
+      have hold : ∀ t k, kr.termKey t = some k →
+          ({ kr with keys := kr.keys ++ [(kr.active + 1, k')], active := kr.active + 1 } : Keyring).termKey t = some k := by
+        intro t k hk
+        rw [termKey_append kr _ _ _ k' hnone]
+        by_cases ht : t = kr.active + 1
+        · subst ht; rw [hnone] at hk; cases hk
+        · simp [ht, hk]
+      refine ⟨b', kr', ?_, e3, e4, fun t k hk => e6 t k (hold t k hk), ?_⟩
+      · rw [chkLoop, hstep]; simpa using e1
+      · intro t ht1 ht2
+        by_cases hta : t = kr.active
+        · subst hta
+          rw [e6 _ _ (hold _ _ h3), h1 _ _ h3]
+        · exact e7 t (by simp; omega) ht2
+
 /-- a standby that finds every upgrade it needs ends `performKeyUpgrades` with the stored keyring -/
 theorem standby_walk {p sh rk KR S} (h : PInv p sh rk KR) (hc : Coherent p rk KR) (hrk : rk ∈ S)
     (b : Barrier) (kr : Keyring) (hs : b.sealed = false) (hkr : b.keyring = some kr) (hsi : SealedIff b)
